@@ -35,6 +35,21 @@ def _env_shims():
                 _shim("numpy." + alias, "alias removed in NumPy 2.0")
             except Exception:
                 pass
+    # numpy.lib.mixins.NDArrayOperatorsMixin grew `__slots__ = ()`; with Python >= 3.11's managed dicts that makes
+    # `self.__class__ = <behavior subclass>` in ak.Array.__init__ fail for every ak.mixin_class
+    # ("object layout differs").  Give awkward the slot-less class that NumPy shipped in 2021.
+    try:
+        import numpy.lib.mixins as _mixins
+
+        orig = _mixins.NDArrayOperatorsMixin
+        if "__slots__" in orig.__dict__:
+            d = dict((k, v) for k, v in orig.__dict__.items() if k not in ("__slots__", "__dict__", "__weakref__"))
+            _mixins.NDArrayOperatorsMixin = type("NDArrayOperatorsMixin", (object,), d)
+            _mixins.NDArrayOperatorsMixin.__module__ = orig.__module__
+            _shim("numpy.lib.mixins.NDArrayOperatorsMixin",
+                  "slot-less copy (as in NumPy < 1.2x): __slots__=() breaks __class__ assignment in ak.Array.__init__ on Python 3.12")
+    except Exception:
+        pass
     if "core" not in numpy.__dict__:
         try:
             import numpy._core as _core
